@@ -13,6 +13,9 @@ import (
 	"strconv"
 	"strings"
 	"syscall"
+	"unicode/utf8"
+
+	"github.com/mattn/go-runewidth"
 
 	"github.com/sandover/ergo/internal/ergo"
 )
@@ -22,6 +25,9 @@ func extra(args []string) bool {
 	switch args[0] {
 	case "serve":
 		serve()
+		return true
+	case "fn-render":
+		fnRender(argU(args, 1, 1), int(argU(args, 2, 1500)))
 		return true
 	case "fn-path":
 		fnPath(argU(args, 1, 1), int(argU(args, 2, 1500)))
@@ -364,4 +370,84 @@ func fnPath(seed uint64, n int) {
 		emit(J{"req": req, "go": ans})
 	}
 	os.Chdir("/")
+}
+
+func cells(s string) [][]int {
+	out := [][]int{}
+	for _, r := range s {
+		out = append(out, []int{int(r), runewidth.RuneWidth(r)})
+	}
+	return out
+}
+
+// single-rune grapheme clusters only: for those go-runewidth's StringWidth is the sum of RuneWidth, which is what the model's cells assume
+var renderAlphabet = []rune{'a', 'b', 'Z', ' ', '-', '日', '本', '語', 0x1F600, 'é', 'ü', '⧗', '@', '…', 0xFF21, '✓', 'Ⓔ', 0x3042, '\t', '\n', 0x7f, 0x85}
+
+func genText(r *rng, maxN int) string {
+	n := r.n(maxN + 1)
+	rs := make([]rune, n)
+	for i := range rs {
+		rs[i] = pick(r, renderAlphabet)
+	}
+	return string(rs)
+}
+
+func fnRender(seed uint64, n int) {
+	r := &rng{s: seed}
+	for i := 0; i < n; i++ {
+		// (a) one row
+		prefix := pick(r, []string{"", "", "│ ", "  "})
+		connector := pick(r, []string{"├", "└"})
+		show := r.p(50)
+		isEpic := r.p(20)
+		icon := pick(r, []string{"✓", "○", "◐", "·", "✗", "⚠"})
+		if isEpic {
+			icon = "Ⓔ"
+		}
+		title := genText(r, pick(r, []int{3, 12, 40, 120}))
+		var anns []string
+		if r.p(40) {
+			anns = []string{"@" + genText(r, 14)}
+		}
+		blocker := ""
+		if r.p(40) {
+			blocker = "⧗ " + genText(r, pick(r, []int{5, 25, 60}))
+		}
+		width := pick(r, []int{14, 15, 16, 17, 18, 20, 24, 30, 40, 60, 80, 100, 132, 200, 240})
+		if r.p(30) {
+			width = 10 + r.n(240)
+		}
+		line := ergo.VerifFormatTreeLine(prefix, connector, show, icon, "ABCDEF", title, anns, blocker, isEpic, "todo", false, width)
+		base := ""
+		if show {
+			base = prefix + connector + " "
+		}
+		base += icon + " "
+		if isEpic {
+			base += " "
+		}
+		ann := ""
+		if len(anns) > 0 {
+			ann = "  " + strings.Join(anns, "  ")
+		}
+		// (b) abbreviate
+		ab := genText(r, 30)
+		abN := pick(r, []int{0, 1, 2, 5, 20, 21})
+		abOut := ergo.VerifAbbreviate(ab, abN)
+		// (c) views of a replayed graph
+		evs := genEvents(r)
+		views := J{}
+		if g, err := ergo.VerifReplay(evs); err == nil {
+			views = J{"all": ergo.VerifRows(g, true, false), "active": ergo.VerifRows(g, false, false), "ready": ergo.VerifRows(g, false, true),
+				"stats": ergo.VerifStats(g), "topo": ergo.VerifTopoOrphans(g)}
+		}
+		blens := []int{}
+		for _, c := range ab {
+			blens = append(blens, utf8.RuneLen(c))
+		}
+		req := J{"op": "render", "tag": i, "base": cells(base), "title": cells(title), "ann": cells(ann), "blocker": cells(blocker), "id": cells("ABCDEF"), "width": width,
+			"ell": []int{int('…'), runewidth.RuneWidth('…')}, "abbr_lens": blens, "abbr_n": abN, "events": ergo.VerifCanonEvents(evs)}
+		lineCps := cps(line)
+		emit(J{"req": req, "go": J{"line": lineCps, "line_width": ergo.VerifVisibleLen(line), "abbr_valid": utf8.ValidString(abOut), "abbr_bytes": len(abOut), "views": views}})
+	}
 }
